@@ -34,4 +34,13 @@ def main():
 
 
 if __name__ == "__main__":
-    sys.exit(main())
+    try:
+        rc = main()
+    except SystemExit:
+        raise
+    except BaseException:            # a crash of the harness is never a verdict about the property
+        import traceback
+        traceback.print_exc()
+        print("HARNESS-ERROR: the check crashed (exit 2); this is not a violation report")
+        rc = 2
+    sys.exit(rc)
